@@ -747,9 +747,10 @@ struct ModelRun
         {
             if (!lost.empty())
             {
-                std::string t = "C03";
+                // a live TTL entry that goes away before its deadline without a C03 reason also "expired early" (C05)
+                std::string t = M.ttl_kind() ? "C03,C05" : "C03";
                 if (M.ttl_kind() && M.bounded() && s0 == M.cap)
-                    t = "C16,C03";
+                    t = "C16,C03,C05";
                 else if (M.kind == bx::K_RR)
                     t = "C03,C15";
                 x.fail(step, t, "insert_lost_live_entries",
